@@ -32,7 +32,7 @@ type RunResult struct {
 	Inconcl    int
 	Yields     int
 	Switches   int
-	Aborted    bool         // the run could not be judged to the end for reasons outside this property
+	Aborted    bool                  // the run could not be judged to the end for reasons outside this property
 	Witness    map[string]core.Fault // for image-based failures: violation signature -> explicit fault reproducing the first image that shows it
 }
 
@@ -395,8 +395,7 @@ func Reproduce(rp *Replay) (bool, []run.Violation) {
 		return false, nil
 	}
 	res := s.Exec(rp.Seed, rp.Program)
-	vs := s.relevant(res.Viol)
-	return sameFailure(vs, rp.Violation.Sig), vs
+	return sameFailure(res.Viol, rp.Violation.Sig), res.Viol
 }
 
 func sortedKeys(m map[string]int) []string {
